@@ -1,8 +1,158 @@
-//! C11 — see /verif/DESIGN.md §3.
-use vf_core::{Args, Ctx};
+//! C11 — variation stores, metric deltas and axis normalisation compute
+//! specified values. See /verif/DESIGN.md §3 "C11".
+//!
+//! (a) VariationStoreBuilder: every delta set added is retrievable through the
+//!     remapped index from the COMPILED table (independent decoder and
+//!     read-fonts) with exactly the same per-region deltas;
+//! (b) ItemVariationStore::compute_delta / compute_float_delta == sum of spec
+//!     tent scalar x delta; DeltaSetIndexMap lookups;
+//! (c) fvar/avar normalisation (read-fonts and skrifa) against exact rationals;
+//! (d) skrifa GlyphMetrics advance / lsb == hmtx + integer HVAR (or gvar
+//!     phantom point) delta.
+use serde_json::json;
+use vf_core::{Args, Ctx, PanicPolicy, Rng};
+
+pub mod gvmodel;
+pub mod model;
+pub mod wl_metrics;
+pub mod wl_norm;
+pub mod wl_store;
 
 pub const REPLAY: Option<fn(&mut Ctx, &Args, &serde_json::Value, Option<&[u8]>)> = None;
 
 pub fn run(ctx: &mut Ctx, _args: &Args) {
-    ctx.rule = "stub".into();
+    ctx.policy = PanicPolicy::Any;
+    ctx.rule = "distinct cases (digest of the input) where: a store case has >= 2 distinct delta sets and the builder merged duplicates, split into several subtables, pruned regions or mixed word sizes; \
+                or a (row, location) has a non-zero exact delta with a partially active region; or a user coordinate lies strictly inside a regular axis (not at min/default/max); \
+                or a (glyph, location) has a non-zero metric delta with a partially active region; or a DeltaSetIndexMap has > 1 entry"
+        .into();
+    ctx.assumptions = vec![
+        "delta sets handed to the builder do not name the same region twice".into(),
+        "compute_delta: documented rounding (accum + 0x8000) >> 16; tolerance 0.5 + sum|delta|*k/2^17 (k = partially active axes; the library rounds each tent scalar to 16.16 once per axis)".into(),
+        "compute_float_delta: f32 scalars, tolerance 16 ulp(f32) * sum|delta|".into(),
+        "rows with sum|delta| > 1e9 are not evaluated through compute_delta (i32 result range)".into(),
+        "normalisation: each stage may round to the nearest 16.16 value either way on ties (spec leaves the rounding open); 16.16 -> 2.14 as the spec prescribes ((x + 2) >> 2)".into(),
+        "axes satisfy min <= default <= max and spans < 32768 (the span-overflow probe is separate); segment maps valid: contain -1/0/+1, `from` strictly increasing, `to` non-decreasing".into(),
+        "metrics: advance/lsb must equal base + integer within 0.5 + eps of the exact delta (the library rounds the summed delta to nearest)".into(),
+    ];
+    let thorough = ctx.tier.is_thorough();
+
+    // (a) + (b)
+    let classes: [(&'static str, usize, usize); 6] = [
+        ("tiny", 80_000, 600_000),
+        ("small", 50_000, 400_000),
+        ("wide", 3_000, 24_000),
+        ("many-shapes", 480, 3_200),
+        ("many-rows", 320, 1_600),
+        ("huge", 0, 4),
+    ];
+    let mut item = 0usize;
+    for (class, q, t) in classes {
+        let n = ctx.tier.pick(q, t);
+        for i in 0..n {
+            item += 1;
+            if !ctx.mine(item) {
+                continue;
+            }
+            let mut rng = Rng::derive(ctx.seed, &format!("c11-store-{}", class), i as u64);
+            let case = wl_store::gen_store_case(&mut rng, class, i as u64, thorough);
+            let Some(built) = wl_store::check_store(ctx, &case) else { continue };
+            // (b) on a sample of rows
+            let mut slots = built.index.clone();
+            slots.sort_unstable();
+            slots.dedup();
+            if slots.len() > 24 {
+                rng.shuffle(&mut slots);
+                slots.truncate(24);
+            }
+            let id = format!("{}-{}", class, i);
+            wl_store::check_compute_delta(ctx, &built.bytes, &id, &slots, ctx.tier.pick(6, 12), &mut rng);
+        }
+    }
+
+    // DeltaSetIndexMap
+    let n = ctx.tier.pick(12_000usize, 100_000);
+    for i in 0..n {
+        item += 1;
+        if !ctx.mine(item) {
+            continue;
+        }
+        let mut rng = Rng::derive(ctx.seed, "c11-dsim", i as u64);
+        wl_store::check_dsim(ctx, &mut rng, i as u64);
+    }
+
+    // (c)
+    if ctx.mine(0) {
+        wl_norm::probe_large_span(ctx);
+    }
+    let n = ctx.tier.pick(40_000usize, 400_000);
+    for i in 0..n {
+        item += 1;
+        if !ctx.mine(item) {
+            continue;
+        }
+        let mut rng = Rng::derive(ctx.seed, "c11-norm", i as u64);
+        wl_norm::check_axes_case(ctx, &mut rng, i as u64);
+    }
+
+    // (d) built fonts
+    let n = ctx.tier.pick(30_000usize, 250_000);
+    for i in 0..n {
+        item += 1;
+        if !ctx.mine(item) {
+            continue;
+        }
+        let mut rng = Rng::derive(ctx.seed, "c11-metrics", i as u64);
+        wl_metrics::check_built_metrics(ctx, &mut rng, i as u64);
+    }
+
+    // (b) + (d) corpus fonts
+    for f in vf_core::corpus_fonts() {
+        let Ok(font) = read_fonts::FontRef::new(&f.data) else { continue };
+        use read_fonts::TableProvider;
+        if font.fvar().is_err() {
+            continue;
+        }
+        let ng = font.maxp().map(|m| m.num_glyphs()).unwrap_or(0) as usize;
+        ctx.label("corpus_variable_fonts", &f.name);
+        let per = ctx.tier.pick(600usize, 20_000);
+        let step = (ng / per).max(1);
+        let gids: Vec<u32> = (0..ng).step_by(step).map(|g| g as u32).collect();
+        for chunk in gids.chunks(8) {
+            item += 1;
+            if !ctx.mine(item) {
+                continue;
+            }
+            let mut rng = Rng::derive(ctx.seed, &f.name, chunk[0] as u64);
+            wl_metrics::check_corpus_metrics(ctx, &f.name, &f.data, chunk, &mut rng);
+        }
+        // compute_delta on the font's own HVAR / MVAR stores
+        item += 1;
+        if ctx.mine(item) {
+            let mut rng = Rng::derive(ctx.seed, &f.name, 0xde17a);
+            for tag in [b"HVAR", b"MVAR", b"VVAR"] {
+                let Some(t) = font.data_for_tag(read_fonts::types::Tag::new(tag)) else { continue };
+                let b = t.as_bytes();
+                // HVAR/VVAR: store offset at 4; MVAR: u16 at 10
+                let off = if tag == b"MVAR" { model::be16(b, 10).map(|v| v as usize) } else { model::be32(b, 4).map(|v| v as usize) };
+                let Ok(off) = off else { continue };
+                let Some(sb) = b.get(off..) else { continue };
+                let Ok(raw) = model::RawIvs::parse(sb) else {
+                    ctx.count("corpus_store_undecodable", 1);
+                    continue;
+                };
+                let mut slots = vec![];
+                for (o, d) in raw.data.iter().enumerate() {
+                    if let Some(d) = d {
+                        for i in 0..d.item_count.min(40) {
+                            slots.push((o as u16, i as u16));
+                        }
+                    }
+                }
+                ctx.label("corpus_stores_evaluated", &format!("{}:{}", f.name, String::from_utf8_lossy(tag)));
+                wl_store::check_compute_delta(ctx, sb, &format!("{}:{}", f.name, String::from_utf8_lossy(tag)), &slots, ctx.tier.pick(8, 24), &mut rng);
+            }
+        }
+    }
+    let _ = json!({});
 }
